@@ -261,6 +261,9 @@ class RecurrencePlot(Cached):
     def embedding(self, embedding: np.ndarray):
         self._embedding = to_cy(embedding, DFIELD)
         self.N = self._embedding.shape[0]
+        if getattr(self, "missing_values", False):
+            self.missing_value_indices = \
+                np.isnan(self._embedding).sum(axis=1) != 0
         self._mut_embedding += 1
 
     #
